@@ -119,6 +119,7 @@ CLAIMS = {
          "(slicing the input there gives the token); the table has exactly one entry per atom event (ids past the last atom map to nothing); the k-th ring-closure token likewise; bond_cursor_is_bond_token: every cursor of the bond table is the position of a bond token — "
          "reading a bond there yields the written bond symbol, or nothing when elided, and is followed by the target atom or ring-closure token (so an elided bond maps to the first character of its target token and each end of a ring closure reports its own digit); "
          "INDEX SIDE (trace_atom_is_its_token, trace_rnum_is_its_token, Lemmas/TraceIdxL.lean): entry i of the atom table is the token of the i-th atom the reader reported, that token reads as exactly the reported kind, and atom i of the built graph carries it; entry k of the ring table is the k-th join's token and reads as its number. "
+         "IN STRING ORDER (trace_atoms_in_string_order, Lemmas/TokOrderL.lean): for i < j the token of atom i ends at or before the start of the token of atom j (numbered in order of appearance, ranges never overlap). "
          "OWN END (bond_cursor_is_own_end, Lemmas/TraceEndsL.lean): the entry (x,y) -> c points at a bond token of kind b that is followed either by the trace's own range of the later of the atoms x, y, which the reader attached with exactly kind b (chain / branch bond, both directions), "
          "or by the trace's own range of the k-th ring-closure token, which was written while x was the head atom and whose join carried exactly kind b (ring closure: each direction its own digit). "
          "trace_matches_built_graph: for every accepted string that builds, the trace has as many atoms as the built graph and an entry for (x,y) iff atom x has a bond to atom y (builder/trace lock-step over the same events, Lemmas/TraceBondL.lean). "
